@@ -20,6 +20,8 @@ fn prop_def(id: &str) -> Option<PropDef> {
         "C04" => PropDef { parts: props::c03::parts_c04(), rule: props::c03::RULE_C04, assumptions: props::c03::ASSUMPTIONS, literal: None },
         "C05" => PropDef { parts: props::c05::parts(), rule: props::c05::RULE, assumptions: props::c05::ASSUMPTIONS, literal: None },
         "C06" => PropDef { parts: props::c06::parts(), rule: props::c06::RULE, assumptions: props::c06::ASSUMPTIONS, literal: None },
+        "C08" => PropDef { parts: props::c08::parts(), rule: props::c08::RULE, assumptions: props::c08::ASSUMPTIONS, literal: None },
+        "C17" => PropDef { parts: props::c17::parts(), rule: props::c17::RULE, assumptions: props::c17::ASSUMPTIONS, literal: None },
         _ => return None,
     })
 }
